@@ -1,6 +1,7 @@
 package actionlint
 
 import (
+	"sort"
 	"strconv"
 	"strings"
 	"unicode/utf8"
@@ -1046,12 +1047,21 @@ func (rule *RuleExpression) checkWorkflowCallOutputs(outputs map[string]*Workflo
 		return
 	}
 
+	// Visit jobs in sorted order since getting outputs of a reusable workflow call may report an error
+	ids := make([]string, 0, len(jobs))
+	for id := range jobs {
+		ids = append(ids, id)
+	}
+	sort.Strings(ids)
+
 	props := make(map[string]ExprType, len(jobs))
-	for n, j := range jobs {
+	for _, n := range ids {
+		j := jobs[n]
 		var o *ObjectType
 		if j.WorkflowCall != nil {
-			// Outputs are not defined in jobs.<job_id> section when it is reusable workflow call.
-			o = NewEmptyObjectType()
+			// Outputs are not defined in jobs.<job_id> section when it is reusable workflow call. They are
+			// defined by the called workflow like outputs of the job in `needs` context.
+			o = rule.getWorkflowCallOutputsType(j.WorkflowCall)
 		} else {
 			p := make(map[string]ExprType, len(j.Outputs))
 			for n := range j.Outputs {
